@@ -205,14 +205,15 @@ def graph_submit(ctx, jobs, name, consts, flags):
     dot = os.path.join(d, "g.dot")
     fixed = flags["FixDelete"] and flags["FixPatch"]
     cfg = os.path.join(d, "gen.cfg")
-    constants = dict(consts, FixDelete="TRUE" if flags["FixDelete"] else "FALSE", FixPatch="TRUE" if flags["FixPatch"] else "FALSE")
+    constants = dict(consts, FixDelete="TRUE" if flags["FixDelete"] else "FALSE", FixPatch="TRUE" if flags["FixPatch"] else "FALSE",
+                     CacheTrunc="TRUE")
     tlc.write_cfg(cfg, spec="Spec", constants=constants,
                   invariants=["TypeOK"] + (["Confined", "UnsafeRefused"] if fixed else []), constraint=["Modelled"])
     jobs.submit(("graph", name), "WorkTreeConf.tla", cfg, workers=ctx.pick(2, 4), dump_dot=dot, timeout=1500)
     if not fixed:
         # the model-checking claim is about the repaired design
         cfg2 = os.path.join(d, "mc.cfg")
-        tlc.write_cfg(cfg2, spec="Spec", constants=dict(consts, FixDelete="TRUE", FixPatch="TRUE"),
+        tlc.write_cfg(cfg2, spec="Spec", constants=dict(consts, FixDelete="TRUE", FixPatch="TRUE", CacheTrunc="TRUE"),
                       invariants=["TypeOK", "Confined", "UnsafeRefused"], constraint=["Modelled"])
         jobs.submit(("mc", name), "WorkTreeConf.tla", cfg2, workers=ctx.pick(2, 4), timeout=1500)
     return dot, fixed
@@ -310,7 +311,7 @@ def trace_validation(ctx, pool, flags, unsafe, comps, count, budget_s):
         flags = {k: not v for k, v in flags.items()}
     tlc.write_cfg(cfg, spec="TraceSpec", constants={"TreeSet": "<- TreesTiny", "Ops": "<- OpsAll", "MaxLen": 12, "Prots": "<- AllProts",
                                                     "FixDelete": "TRUE" if flags["FixDelete"] else "FALSE",
-                                                    "FixPatch": "TRUE" if flags["FixPatch"] else "FALSE"})
+                                                    "FixPatch": "TRUE" if flags["FixPatch"] else "FALSE", "CacheTrunc": "TRUE"})
     res = tlc.run("WorkTreeConfTrace.tla", cfg, workers=1, timeout=1500, env={"TRACE_FILE": path})
     ctx.add_tlc(f"WorkTreeConfTrace ({len(hists)} recorded histories)", res, require_ok=False)
     verdicts = {v[1]: v for v in tlc.extract_printed(res.output, "VERDICT")}
@@ -356,17 +357,20 @@ def run(ctx):
             "names1": ({"TreeSet": "<- TreesNames", "Ops": "<- OpsAll", "MaxLen": 1, "Prots": "<- AllProts"}, ctx.pick(20, 120)),
             "tiny3": ({"TreeSet": "<- TreesTiny", "Ops": "<- OpsAll", "MaxLen": 3, "Prots": D}, ctx.pick(25, 200)),
             "mid2": ({"TreeSet": "<- TreesMid", "Ops": "<- OpsAll", "MaxLen": 2, "Prots": D}, ctx.pick(25, 200)),
+            "dang2": ({"TreeSet": "<- TreesDang", "Ops": "<- OpsAll", "MaxLen": 2, "Prots": D}, ctx.pick(8, 60)),
+            "deep2": ({"TreeSet": "<- TreesDeep", "Ops": "<- OpsWalk", "MaxLen": 2, "Prots": D}, ctx.pick(6, 60)),
             "gl3": ({"TreeSet": "<- TreesGl", "Ops": "<- OpsAll", "MaxLen": 3, "Prots": D}, 60),
             "core2": ({"TreeSet": "<- TreesCore", "Ops": "<- OpsAll", "MaxLen": 2, "Prots": D}, 300),
             "small3": ({"TreeSet": "<- TreesSmall", "Ops": "<- OpsAll", "MaxLen": 3, "Prots": D}, 300),
             "full2": ({"TreeSet": "<- TreesFull", "Ops": "<- OpsNoClone", "MaxLen": 2, "Prots": D}, 400),
         }
-        order = ctx.pick(["names1", "tiny3", "mid2"], ["names1", "tiny3", "mid2", "gl3", "core2", "small3", "full2"])
+        order = ctx.pick(["names1", "dang2", "deep2", "tiny3", "mid2"],
+                         ["names1", "dang2", "deep2", "tiny3", "mid2", "gl3", "core2", "small3", "full2"])
         only = os.environ.get("C17_ONLY", "")
         if only:
             order = [x for x in only.split(",") if x in plans]
         submitted = {nm: graph_submit(ctx, jobs, nm, plans[nm][0], flags) for nm in order}
-        for cfg in ("WorkTreeConf_neg_delete.cfg", "WorkTreeConf_neg_patch.cfg"):
+        for cfg in ("WorkTreeConf_neg_delete.cfg", "WorkTreeConf_neg_patch.cfg", "WorkTreeConf_neg_cache.cfg"):
             jobs.submit(cfg, "WorkTreeConf.tla", cfg, workers=2, timeout=600)
         unsafe, comps = names_level(ctx, pool, jobs.get("names"), dump)
         ctx.log(f"elements done; code implements FixDelete={flags['FixDelete']} FixPatch={flags['FixPatch']}")
@@ -384,7 +388,8 @@ def run(ctx):
         if not only or "traces" in only:
             trace_validation(ctx, pool, flags, unsafe, comps, ctx.pick(300, 6000), max(5.0, min(ctx.pick(10, 200), deadline - time.time())))
         # negative controls: the invariant bites on the behaviour of the snapshot
-        for cfg, expect in (("WorkTreeConf_neg_delete.cfg", "Confined"), ("WorkTreeConf_neg_patch.cfg", "Confined")):
+        for cfg, expect in (("WorkTreeConf_neg_delete.cfg", "Confined"), ("WorkTreeConf_neg_patch.cfg", "Confined"),
+                            ("WorkTreeConf_neg_cache.cfg", "Confined")):
             r = jobs.get(cfg)
             ctx.add_tlc(f"{cfg} (negative control, expects {expect})", r, require_ok=False)
             if expect not in r.violated:
@@ -397,7 +402,8 @@ def run(ctx):
     ctx.assumptions += [
         "POSIX host, case-sensitive non-normalising file system (tmpfs); Windows/macOS branches of the validators not executed",
         "pure-Python dulwich (Rust extensions blocked in the workers)",
-        "trees: at most 2 root entries, sub-directories up to depth 3 in the enumerated alphabets; histories: at most 3 operations "
+        "trees: at most 2 root entries, sub-directories up to depth 3 (depth 4 in the dedicated deep2 configuration) in the "
+        "enumerated alphabets; histories: at most 3 operations "
         "(random histories judged by TLC: up to 6 operations, 3 root entries)",
     ]
     return ctx.finish(exhaustive=exhaustive)
